@@ -174,7 +174,8 @@ func cmdCheck(args []string) int {
 	var reports []obligationReport
 	var violations []*aggGoal
 	var broken []string
-	var fnsUnder, inlined, usedExt, trustedUsed, uncontracted, notes []string
+	var fnsUnder, inlined, usedExt, trustedUsed, uncontracted, notes, depFns []string
+	depSet := map[string]bool{}
 	seenUsed := map[string]bool{}
 	totalObl, totalOK := 0, 0
 	solverTime := 0.0
@@ -254,11 +255,11 @@ func cmdCheck(args []string) int {
 			fr   *FnResult
 			outs []*goalOutcome
 		}
-		results := make([]*verified, len(selected))
-		{
+		verifyBatch := func(batch []*Contract) []*verified {
+			res := make([]*verified, len(batch))
 			var wg sync.WaitGroup
 			fsem := make(chan struct{}, 6)
-			for i, ct := range selected {
+			for i, ct := range batch {
 				i, ct := i, ct
 				wg.Add(1)
 				go func() {
@@ -275,10 +276,42 @@ func cmdCheck(args []string) int {
 					if os.Getenv("GVC_DEBUG") != "" {
 						fmt.Fprintf(os.Stderr, "%6.1fs %5d goals %4d paths %s\n", time.Since(t1).Seconds(), len(fr.Goals), fr.Paths, shortFn(ct.Func))
 					}
-					results[i] = v
+					res[i] = v
 				}()
 			}
 			wg.Wait()
+			return res
+		}
+		// The proof of a property is modular: a function under the property is
+		// checked against the contracts of its callees, so those contracts are
+		// part of the property's proof and their obligations are discharged
+		// with it (transitively), whatever property they were written for.
+		var results []*verified
+		inSel := map[string]bool{}
+		for _, ct := range selected {
+			inSel[ct.Func] = true
+		}
+		pending := selected
+		selected = nil
+		for len(pending) > 0 {
+			res := verifyBatch(pending)
+			selected = append(selected, pending...)
+			results = append(results, res...)
+			var next []*Contract
+			for _, v := range res {
+				for _, n := range v.fr.Used {
+					c2 := cs.ByFunc[n]
+					if c2 == nil || inSel[n] || c2.External || c2.Trusted || c2.Opaque || c2.onlyInline() || c2.File == "synthesised" {
+						continue
+					}
+					inSel[n] = true
+					next = append(next, c2.forProp(*prop))
+					depFns = append(depFns, shortFn(n))
+					depSet[n] = true
+				}
+			}
+			sort.Slice(next, func(i, j int) bool { return next[i].Func < next[j].Func })
+			pending = next
 		}
 		for i, ct := range selected {
 			nFns++
@@ -335,7 +368,7 @@ func cmdCheck(args []string) int {
 			outs := results[i].outs
 			agg := aggregate(outs)
 			for _, a := range agg {
-				if !hasProp(a.Props, *prop) {
+				if !hasProp(a.Props, *prop) && !depSet[a.Fn] {
 					continue
 				}
 				if a.Kind == "cover" {
@@ -511,6 +544,7 @@ func cmdCheck(args []string) int {
 		"trusted_base":             trusted,
 		"samples":                  samples,
 		"functions_under_contract": fnsUnder,
+		"callee_contracts_included": dedup(depFns),
 		"inlined_functions":        inlined,
 		"ssa_instructions":         totalInstr,
 		"solver_time_s":            round3(solverTime),
@@ -562,3 +596,16 @@ func uniq(xs []string) []string {
 }
 
 func cmdSelftest(args []string) int { return selftest(args) }
+
+func dedup(xs []string) []string {
+	seen := map[string]bool{}
+	out := []string{}
+	for _, x := range xs {
+		if !seen[x] {
+			seen[x] = true
+			out = append(out, x)
+		}
+	}
+	sort.Strings(out)
+	return out
+}
